@@ -9,7 +9,7 @@ TRUST = ('Trusted base: cbmc 6.11 (C front end, goto-instrument --dfcc, SAT/SMT 
 
 CLAIMED = {
     'C15': dict(
-        text='Proof: basic_range_split::init, both iterators (begin/end/==/++) and the three Derived classes are lowered from '
+        text='Proof: basic_range_split::init, aligned_begin_offset() / aligned_end_offset(), both iterators (begin/end/==/++) and the three Derived classes are lowered from '
              '/repo on every run; init + the client loops over all_parts()/aligned_parts() are proved against an abstract '
              'Derived (uninterpreted divide/multiply/get_length + axioms A1-A7) for ALL offsets/lengths <= 2^61 and any number '
              'of blocks (induction: base/step/exit obligations); range_split_power2 and range_split_vi are proved to satisfy '
